@@ -13,6 +13,7 @@ PlistVerdict(r) ==
     IF ~PlistJudged(r.in.bytes) THEN (IF DOMAIN r.out \cap {"ok", "err"} # {} THEN "ok" ELSE "bad")
     ELSE LET p == ParsePlist(r.in.bytes) IN
          IF p[1] = "err" THEN (IF r.out = [err |-> "T"] THEN "ok" ELSE "bad")
+         ELSE IF Len(p[2]) > QueriesRefMax THEN (IF r.out = [ok |-> p[2], q |-> QueriesByView(p[2])] THEN "ok" ELSE "bad")
          ELSE IF r.out = [ok |-> p[2], q |-> Queries(p[2])]
                  \* the implemented view loops agree with the property's definitions on this list
                  /\ View(p[2], "files") = FilesRef(p[2]) /\ View(p[2], "prefixed") = PrefixedRef(p[2])
